@@ -6,7 +6,8 @@ proof stage     coq/props/C07.v: for every list of annotated concepts (every
                 containsOperation triples and the type-node descriptions are
                 exactly the prescribed ones (Graph/Annot*.v; supertypes through
                 C10's theorem; URIs through C14's)
-correspondence  TransformationGraph.add_expr / add_workflow of the working tree
+correspondence  TransformationGraph.add_expr (one or several roots in one graph) /
+                add_workflow of the working tree
                 vs the Gallina model (Graph/Annot.v + Graph/AddExpr.v wiring) on
                 generated well-typed expressions and workflows over generated
                 languages with varied canon; annotation triples, type-node
@@ -521,7 +522,7 @@ def coq_cexpr(w) -> str:
             f"{'true' if w['fn'] else 'false'})")
 
 
-def expected_concepts(ws):
+def expected_concepts(ws, memo_tops=True):
     """the Sources and Operations add_expr annotates, in visiting order, with
     the [intermediate] flag; one entry per visit (sources once: they are reused)"""
     memo = set()
@@ -549,12 +550,16 @@ def expected_concepts(ws):
                 go(x, True)
         else:
             raise ValueError("expression outside add_expr's domain")
-    for w in ws:
+    for ti, w in enumerate(ws):
         key = (w["k"], w["id"])
         if key in memo:
             continue
+        n0 = len(out)
         go(w, False)
-        memo.add(key)
+        for c in out[n0:]:
+            c["top"] = ti
+        if memo_tops:
+            memo.add(key)
     return out
 
 
@@ -570,7 +575,14 @@ class Case:
         L = self.L
         d = {"language": L.to_json(), "case_kind": self.kind, "switches": self.sw, "other_switches": self.other,
              "name": self.name, "namespace": NS}
-        if self.kind == "expr":
+        if self.kind == "multi":
+            d["recipes"] = self.spec
+            d["expressions"] = [rtext(L, r) for r in self.spec]
+            d["how_to_rebuild"] = ("language as described; build every expression on its own Source objects, "
+                "then .primitive(); ONE g = TransformationGraph(lang, **switches, **other_switches, "
+                "with_supertype_classes=False); g.add_expr(expr_k, URIRef('https://example.com/tfm#r<k>')) "
+                "for k = 0, 1, ...: every root must have the membership triples of its own expression")
+        elif self.kind == "expr":
             d["recipe"] = self.spec
             d["expression"] = rtext(L, self.spec)
             d["how_to_rebuild"] = ("base types B<i> with the listed parents, compound operators K<i> with the "
@@ -616,7 +628,7 @@ def gen_cases(rng, nlang: int, per_lang: int):
             continue
         weights = [rsize(e[0]) ** 1.5 for e in cands]
         nwf = max(1, per_lang // 3)
-        for i in range(per_lang - nwf):
+        for i in range(per_lang - nwf - max(1, per_lang // 4)):
             r = rng.choices(cands, weights)[0][0]
             seen = []
             r2 = rekey(r, [0], rng, 0.35, seen)
@@ -624,6 +636,25 @@ def gen_cases(rng, nlang: int, per_lang: int):
                 r2 = rekey(r, [0])
             sw, other = gen_switches(rng)
             cases.append(Case(L, "expr", r2, sw, other, f"L{tries}_e{i}"))
+        for i in range(max(1, per_lang // 4)):
+            # several transformations in one graph, mostly with types in common
+            k = rng.choice([2, 2, 3])
+            rs = [rng.choices(cands, weights)[0][0]]
+            while len(rs) < k:
+                q = rng.random()
+                rs.append(rng.choice(rs) if q < 0.45 else rng.choices(cands, weights)[0][0])
+            small = [r for r in rs if rsize(r) <= MAX_NODES // 3]
+            if len(small) < 2:
+                continue
+            sw, other = gen_switches(rng)
+            if rng.random() < 0.5:
+                sw["with_membership_supertypes"] = True
+                sw["with_types"] = True
+            keyed = []
+            for r in small:
+                r2 = rekey(r, [0], rng, 0.3, [])
+                keyed.append(r2 if try_type_keyed(L, r2) else rekey(r, [0]))
+            cases.append(Case(L, "multi", keyed, sw, other, f"L{tries}_m{i}"))
         for i in range(nwf):
             wf = gen_workflow(rng, L, pool)
             if wf is None:
@@ -813,7 +844,26 @@ def run_impl(case: Case):
     case.error = None
     ids, keep = {}, []
     case.keep = keep
-    if case.kind == "expr":
+    case.roots = [("r",)]
+    if case.kind == "multi":
+        try:
+            tops = [build(L, r, {}).primitive() for r in case.spec]
+        except (T.TypingError, E.ApplicationError, AssertionError, RecursionError) as ex:
+            case.skip = "does_not_build"
+            return
+        rs = [URIRef(f"https://example.com/tfm#r{k}") for k in range(len(tops))]
+        case.roots = [("u", str(r)) for r in rs]
+        root = None
+        for e, r in zip(tops, rs):
+            try:
+                g.add_expr(e, r)
+            except NonCanonicalTypeError:
+                case.error = "NonCanonicalTypeError"
+                break
+            except Exception as ex:
+                case.error = f"{type(ex).__name__}: {str(ex)[:160]}"
+                break
+    elif case.kind == "expr":
         try:
             e = build(L, case.spec, {}).primitive()
         except (T.TypingError, E.ApplicationError, AssertionError, RecursionError) as ex:
@@ -963,7 +1013,8 @@ def oracle(case: Case, member_op_name: str):
     for s, p, o in obs:
         by_subj.setdefault(s, []).append((p, o))
     out = []
-    root = ("r",)
+    roots = case.roots
+    multi = case.kind == "multi"
 
     def has_uri(t):
         return (not t[1]) or repr(t) in canon_set
@@ -971,8 +1022,9 @@ def oracle(case: Case, member_op_name: str):
         # without recorded parameters a blank type node cannot be read back
         return repr(t) if has_uri(t) or sw["with_type_parameters"] else "NC"
     opaque_nodes = set()
-    concepts = expected_concepts(case.ws)
-    exp_types, exp_ops = set(), set()
+    concepts = expected_concepts(case.ws, memo_tops=not multi)
+    exp_types_r = {r: set() for r in roots}
+    exp_ops_r = {r: set() for r in roots}
     exp_records = Counter()
     type_node_of = {}      # repr(type) -> set of nodes seen as its node (sources only: exact)
     for c in concepts:
@@ -988,11 +1040,13 @@ def oracle(case: Case, member_op_name: str):
             msupers = {uri_text(L, s) for s in canon if sub(h, t, s) and s != t}
         via = NS + c["name"] if c["kind"] == "op" and sw["with_operators"] else None
         c.update(typed=typed, canonical=canonical, supers=supers, via=via)
+        # the transformation (root) this concept was added under
+        croot = roots[c["top"]] if multi else roots[0]
         if typed and sw["with_membership"]:
-            exp_types.add(("T", repr(t)))
-        exp_types |= {("U", u) for u in msupers}
+            exp_types_r[croot].add(("T", repr(t)))
+        exp_types_r[croot] |= {("U", u) for u in msupers}
         if via and sw["with_membership"]:
-            exp_ops.add(via)
+            exp_ops_r[croot].add(via)
         if c["kind"] == "src":
             n = case.src_nodes.get(c["id"])
             if n is None:
@@ -1028,7 +1082,7 @@ def oracle(case: Case, member_op_name: str):
             exp_records[(via, tkey(t) if typed else None, frozenset(supers))] += 1
     # operations: the nodes that are not source nodes and carry via or type
     src_nodes = set(case.src_nodes.values())
-    op_nodes = {s for s, p, o in obs if p in ("via", "type") and s not in src_nodes and s != root}
+    op_nodes = {s for s, p, o in obs if p in ("via", "type") and s not in src_nodes and s not in roots}
     got_records = Counter()
     for n in op_nodes:
         props = by_subj.get(n, [])
@@ -1075,39 +1129,44 @@ def oracle(case: Case, member_op_name: str):
         if len(blanks) != len(nc_types):
             out.append(("type_node_once", f"{len(blanks)} blank type nodes for {len(nc_types)} distinct "
                         f"types without URI", None))
-    # membership
-    got_ct = {o for s, p, o in obs if p == "containsType"}
-    bad_subj = {s for s, p, o in obs if p.startswith("contains") and s != root}
+    # membership, per transformation root: exactly the union over ITS nodes
+    bad_subj = {s for s, p, o in obs if p.startswith("contains") and s not in roots}
     if bad_subj:
         out.append(("membership_subject", f"membership triples on {sorted(bad_subj)}", None))
-    exp_ct_nodes = set()
-    unknown_nc = 0
-    for kind, v in exp_types:
-        if kind == "U":
-            exp_ct_nodes.add(("u", v))
-        else:
-            nodes = type_node_of.get(v)
-            if nodes:
-                exp_ct_nodes |= nodes
+    for ri, root in enumerate(roots):
+        tag = f" of transformation {ri} ({root[-1]})" if multi else ""
+        exp_types, exp_ops = exp_types_r[root], exp_ops_r[root]
+        got_ct = {o for s, p, o in obs if p == "containsType" and s == root}
+        exp_ct_nodes = set()
+        unknown_nc = 0
+        for kind, v in exp_types:
+            if kind == "U":
+                exp_ct_nodes.add(("u", v))
             else:
-                unknown_nc += 1
-    if unknown_nc == 0:
-        if got_ct != exp_ct_nodes:
-            out.append(("containsType",
-                f"containsType {sorted(map(str, got_ct))} expected {sorted(map(str, exp_ct_nodes))}", None))
-    else:
-        if not exp_ct_nodes <= got_ct or len(got_ct) != len(exp_ct_nodes) + unknown_nc:
-            out.append(("containsType",
-                f"containsType {sorted(map(str, got_ct))} expected {sorted(map(str, exp_ct_nodes))} "
-                f"and {unknown_nc} more type nodes", None))
-    got_co = {o[1] for s, p, o in obs if p == member_op_name and o[0] == "u"}
-    if got_co != exp_ops:
-        others = sorted({p for s, p, o in obs if p.startswith("contains") and p not in ("containsType", member_op_name)})
-        sig = SIG_PRED if (not got_co and others == ["containsOperator"] and
-                           {o[1] for s, p, o in obs if p == "containsOperator"} == exp_ops) else None
-        out.append(("containsOperation",
-            f"tf:{member_op_name} {sorted(got_co)} expected {sorted(exp_ops)}; other membership predicates present: {others}",
-            sig))
+                nodes = type_node_of.get(v)
+                if nodes:
+                    exp_ct_nodes |= nodes
+                else:
+                    unknown_nc += 1
+        if unknown_nc == 0:
+            if got_ct != exp_ct_nodes:
+                out.append(("containsType",
+                    f"containsType{tag}: missing {sorted(map(str, exp_ct_nodes - got_ct))} "
+                    f"unexpected {sorted(map(str, got_ct - exp_ct_nodes))} (the union over its nodes is "
+                    f"{sorted(map(str, exp_ct_nodes))})", None))
+        else:
+            if not exp_ct_nodes <= got_ct or len(got_ct) != len(exp_ct_nodes) + unknown_nc:
+                out.append(("containsType",
+                    f"containsType{tag} {sorted(map(str, got_ct))} expected {sorted(map(str, exp_ct_nodes))} "
+                    f"and {unknown_nc} more type nodes", None))
+        got_co = {o[1] for s, p, o in obs if p == member_op_name and o[0] == "u" and s == root}
+        if got_co != exp_ops:
+            others = sorted({p for s, p, o in obs if p.startswith("contains") and p not in ("containsType", member_op_name)})
+            sig = SIG_PRED if (not got_co and others == ["containsOperator"] and
+                               {o[1] for s, p, o in obs if p == "containsOperator" and s == root} == exp_ops) else None
+            out.append(("containsOperation",
+                f"tf:{member_op_name}{tag} {sorted(got_co)} expected {sorted(exp_ops)}; other membership predicates present: {others}",
+                sig))
     # one node per distinct type; URI iff the type has one
     for trep, nodes in type_node_of.items():
         if len(nodes) != 1:
@@ -1256,6 +1315,11 @@ Definition obs_case sw L ns H canon (es : list cexpr) (wire : bool) : option (li
            end
          else []))
   end.
+Definition obs_multi sw L ns H canon (res : list (term * cexpr)) : option (list (list (list N))) :=
+  match annot_roots sw L ns canon (csup H canon) res with
+  | None => None
+  | Some (g, st) => Some (map etriple (t_tr st))
+  end.
 Definition pred_table : list (list (list N)) :=
   map (fun p => [epred p; packs (pred_name p)]) (tf_preds ++ [PSubClassOf]).
 Definition bs (l : list nat) : list bool := map (fun n => negb (n =? 0)) l.
@@ -1287,6 +1351,11 @@ def coq_block(li: int, L: Lang, cases) -> tuple[str, int]:
             f"Definition C_{li} := {C.coq_list(canon, C.ty_coq)}.\n")
     for c in cases:
         sw = C.coq_list([("true" if c.sw[s] else "false") for s in SWITCHES])
+        if c.kind == "multi":
+            res = C.coq_list(list(zip(c.roots, c.ws)),
+                lambda rw: f"(TUri {coq_str(rw[0][1])}, {coq_cexpr(rw[1])})")
+            body += (f"Eval vm_compute in obs_multi (sw_of {sw}) L_{li} {coq_str(NS)} H_{li} C_{li} {res}.\n")
+            continue
         es = C.coq_list(c.ws, coq_cexpr)
         wire = "true" if c.kind == "expr" else "false"
         body += (f"Eval vm_compute in obs_case (sw_of {sw}) L_{li} {coq_str(NS)} H_{li} C_{li} {es} {wire}.\n")
@@ -1440,6 +1509,14 @@ def fixed_cases():
                 sw["with_noncanonical_types"] = False
                 sw["with_supertypes"] = False
                 out.append(Case(L, "expr", r, sw, dict(off_other), f"fixed{li}_{name}_canonical_only"))
+    tm = dict(terms)
+    for li, L in enumerate((L1, L3)):
+        for name, rs in (("same_twice", [tm["basic"], tm["basic"]]),
+                         ("overlapping", [tm["design_probe_g_f"], tm["basic"], tm["noncanonical_output"]])):
+            out.append(Case(L, "multi", rs, dict(on), dict(off_other), f"fixed{li}_two_roots_{name}"))
+            sw = dict(on)
+            sw["with_membership"] = False
+            out.append(Case(L, "multi", rs, sw, dict(off_other), f"fixed{li}_two_roots_{name}_supertypes_only"))
     wf = {"sources": {"s0": Cc, "s1": D},
           "tools": [{"out": "t0", "expr": "f1 (f0 (1 : B7))", "inputs": ["s0"]},
                     {"out": "t1", "expr": "f3 1 (2 : B8)", "inputs": ["t0", "s1"]}]}
@@ -1465,8 +1542,10 @@ def case_from_payload(d) -> Case:
 
     def tupl(t):
         return (t[0], [tupl(a) for a in t[1]])
-    kind = d.get("case_kind") or ("expr" if "recipe" in d else "wf")
-    if kind == "expr":
+    kind = d.get("case_kind") or ("multi" if "recipes" in d else "expr" if "recipe" in d else "wf")
+    if kind == "multi":
+        spec = [rec(r) for r in d["recipes"]]
+    elif kind == "expr":
         spec = rec(d["recipe"])
     else:
         spec = d["workflow"]
@@ -1518,12 +1597,19 @@ def run_cases(rep: C.Report, cases, tag: str):
         for c, val in zip(cs, vals):
             n_eval += 1
             m = model_obs(val, pred_names)
-            concepts = expected_concepts(c.ws)
+            concepts = expected_concepts(c.ws, memo_tops=c.kind != "multi")
             ntyp = len({repr(x["t"]) for x in concepts})
             canon_set = {repr(t) for t in c.canon}
             nnc = len({repr(x["t"]) for x in concepts if repr(x["t"]) not in canon_set})
             ncomp = sum(1 for x in concepts if x["t"][1])
             dist["kind_" + c.kind] += 1
+            if c.kind == "multi":
+                per = {}
+                for x in concepts:
+                    per.setdefault(x["top"], set()).add(repr(x["t"]))
+                sets = list(per.values())
+                dist["multi_roots_sharing_a_canonical_type"] += any(
+                    (a & b) & canon_set for i, a in enumerate(sets) for b in sets[i + 1:])
             dist[f"concepts_{min(len(concepts), 12) // 3 * 3}+"] += 1
             dist[f"canon_{min(len(c.canon), 60) // 10 * 10}+"] += 1
             dist["with_noncanonical_concept"] += nnc > 0
@@ -1541,7 +1627,8 @@ def run_cases(rep: C.Report, cases, tag: str):
                 dist["on_" + s] += c.sw[s]
             dist["outcome_" + (c.error or "ok").split(":")[0]] += 1
             if ncomp and any(repr(x["t"]) in canon_set for x in concepts) and len(concepts) >= 3:
-                nontrivial.add((c.name, rtext(c.L, c.spec) if c.kind == "expr" else json.dumps(c.spec["tools"])))
+                nontrivial.add((c.name, rtext(c.L, c.spec) if c.kind == "expr" else
+                                json.dumps(c.spec["tools"] if c.kind == "wf" else c.spec)))
             payload = c.payload()
             payload["canon"] = [c.L.tstr(t) for t in c.canon]
             payload["implementation_triples"] = sorted(map(str, c.obs))[:200]
@@ -1638,7 +1725,7 @@ def main(tier: str, seed: int, replay: str | None = None) -> int:
     rng = random.Random(seed)
     if replay:
         d = json.loads(open(replay).read())
-        if "recipe" in d or "workflow" in d:
+        if "recipe" in d or "workflow" in d or "recipes" in d:
             cases = [case_from_payload(d)]
         elif d.get("example"):
             cases = [case_from_payload(d["example"])]
